@@ -16,7 +16,7 @@ MANIFEST = {
     "text": "decides, per enumerated shape and for all message values: HASH/HASHA/XOF/XOFA (one-shot, incremental "
             "with chunked absorb and squeeze), fixed-length variants including the 0 / 32 / 2^29 dispatch, and the "
             "customised XOF (empty, short, 32-byte and hashed >32-byte function names; customisation strings) equal "
-            "their specification with the permutation uninterpreted; and the pre-computed initial states equal "
+            "their specification with the permutation uninterpreted, also after *_reinit of a used state; and the pre-computed initial states equal "
             "P12(IV) in every back-end encoding; lengths beyond the enumerated shapes are not decided",
     "note": "specification oracle validated against the published KAT vectors (tools/validate_oracle.py); cXOF "
             "details not fixed by doc/cxof.dox (rounds after the customisation block) follow the KAT vectors",
